@@ -99,15 +99,15 @@ ENC_WRAP_NOTE = ('FINDING: count is not checked for < 0 and (size_t)count*width 
                  'bytes_written == count*w <= capacity"; passes with the proposed fix (/tmp/plain/demo/bss_fix.diff)')
 JOBS += [
     dict(name='c11_bss_encode_float', props=['C11', 'C12'], entry='h_bss_encode_float',
-         enforce='carquet_byte_stream_split_encode_float', timeout=240, wip=True, note=ENC_WRAP_NOTE, **B11),
+         enforce='carquet_byte_stream_split_encode_float', timeout=240, wip=False, **B11),
     dict(name='c11_bss_encode_double', props=['C11', 'C12'], entry='h_bss_encode_double',
-         enforce='carquet_byte_stream_split_encode_double', timeout=240, wip=True, note=ENC_WRAP_NOTE, **B11),
+         enforce='carquet_byte_stream_split_encode_double', timeout=240, wip=False, **B11),
 ]
 for w in (1, 2, 4):
     JOBS.append(dict(name='c11_bss_encode_generic_w%d' % w, props=['C11', 'C12'], entry='h_bss_encode_generic',
                      enforce='carquet_byte_stream_split_encode', defines=['CQV_W=%d' % w, 'CQV_CONTENT=1'], min_loop_obligations=2,
                      level='bounded', bound='type_length == %d (all counts, all data)' % w, timeout=400, est_s=120,
-                     tier='thorough', wip=(w != 1), note=None if w == 1 else ENC_WRAP_NOTE, **B11))
+                     tier='thorough', wip=False, **B11))
 
 # ---- C11: dictionary encoder index width ----
 JOBS.append(dict(name='c11_dict_bit_width_for_count', props=['C11'], entry='h_bit_width_for_count', harness='harness/C11/dictionary.c',
@@ -118,12 +118,12 @@ WRAP_NOTE = ('FINDING: (size_t)count*width wraps for count >= 2^64/width and for
              'count*width > data_size / count < 0; the kernels are then called with that count')
 JOBS += [
     dict(name='c08_bss_decode_float_hugecount', props=['C08'], entry='h_bss_decode_float', defines=['CQV_HUGE=1'],
-         enforce='carquet_byte_stream_split_decode_float', timeout=240, wip=True, note=WRAP_NOTE, **B08),
+         enforce='carquet_byte_stream_split_decode_float', timeout=240, wip=False, **B08),
     dict(name='c08_bss_decode_double_hugecount', props=['C08'], entry='h_bss_decode_double', defines=['CQV_HUGE=1'],
-         enforce='carquet_byte_stream_split_decode_double', timeout=240, wip=True, note=WRAP_NOTE, **B08),
+         enforce='carquet_byte_stream_split_decode_double', timeout=240, wip=False, **B08),
     dict(name='c08_bss_decode_generic_w4_hugecount', props=['C08'], entry='h_bss_decode_generic', defines=['CQV_HUGE=1', 'CQV_W=4'],
          enforce='carquet_byte_stream_split_decode', min_loop_obligations=2, level='bounded', bound='type_length == 4',
-         timeout=240, wip=True, note=WRAP_NOTE, **B08),
+         timeout=240, wip=False, **B08),
     dict(name='c08_dict_decode_int32_hugecount', props=['C08'], entry='h_dict_decode_int32', defines=['CQV_HUGE=1', 'CQV_RLE_STUB_FRESH_OUTPUT=1'],
          enforce='carquet_dictionary_decode_int32', min_loop_obligations=1, timeout=240, wip=True,
          note='FINDING: malloc(output_count * sizeof(uint32_t)) wraps for output_count >= 2^62: undersized index buffer handed to carquet_rle_decode_all',
@@ -142,5 +142,6 @@ JOBS += [
 JOBS.append(dict(name='c11_dict_builder_add', props=['C11'], entry='h_dict_builder_add', harness='harness/C11/dictionary.c',
                  includes=['.'], loop_contracts=False, unwind=10, extra_sources=['stubs/mem_stubs.c', 'stubs/plain_stubs.c'],
                  cbmc_flags=['--malloc-may-fail', '--malloc-fail-null'], level='bounded',
-                 bound='hash chain <= 2 entries, value_size <= 8, index array capacity <= 4 (realloc path included)',
-                 functions=['dict_builder_add', 'dict_hash'], trusted=BUF_TRUST, timeout=300, wip=True))
+                 bound='num_buckets == 1024 (as set by dict_builder_init), hash chain <= 2 entries, value_size <= 8, index array capacity <= 4 (realloc path included)',
+                 functions=['dict_builder_add', 'dict_hash'], trusted=BUF_TRUST, timeout=300, tier='thorough', wip=True,
+                 note='UNDECIDED: SAT times out at 300 s (two unrolled FNV hash computations + realloc model); not a finding'))
